@@ -611,8 +611,15 @@ class Expander:
                     r = r.value
                 if isinstance(r, ast.Name) and r.id in params:
                     return False
-            if isinstance(n, ast.Call) and any(kw.arg == "out" for kw in n.keywords):
-                return False
+            if isinstance(n, ast.Call):
+                for kw in n.keywords:
+                    if kw.arg == "out":
+                        # writing into a parameter is a side effect; a fresh array (`out=np.zeros_like(x)`) is not
+                        r = kw.value
+                        while isinstance(r, (ast.Attribute, ast.Subscript)):
+                            r = r.value
+                        if isinstance(r, ast.Name):
+                            return False
         return True
 
     def guarded_return(self, f: Func) -> Term:
